@@ -1,7 +1,7 @@
 (** C08 — general (unbounded) proofs for [FeatureMap.inverse], [shadow] and
     [covered] against Spec/FeatureMapSpec.v.  The statements are the ones
     checked by enumeration in Proofs/FeatureMapBounded.v. *)
-From CG3 Require Import Lib.PyZ Lib.Val Model.IndelMap Model.FeatureMap Spec.FeatureMapSpec Proofs.IndelMapProofs Proofs.FeatureMapBounded Proofs.FeatureMapProofs.
+From CG3 Require Import Lib.PyZ Lib.Val Model.IndelMap Model.FeatureMap Spec.FeatureMapSpec Proofs.IndelMapProofs Proofs.IndelMapJoin Proofs.FeatureMapBounded Proofs.FeatureMapProofs.
 
 Local Open Scope Z_scope.
 
@@ -423,3 +423,485 @@ Corollary fm_shadow_spec_useful fm : fuseful fm = true -> in_parent fm = true ->
   exists g, fm_shadow fm = Ok g /\ den g = map Some (complement (fplen fm) (positions fm)) /\
             fplen g = fplen fm /\ in_parent g = true /\ all_forward g = true.
 Proof. intros Hu Hin Hdis. apply fm_shadow_spec; auto. now apply useful_plen_nonneg. Qed.
+
+(** * Part B: [covered] *)
+
+(** * 1. weighted sums over association lists *)
+
+Fixpoint wsum (p : Z) (D : list (Z * Z)) : Z :=
+  match D with [] => 0 | (k, v) :: t => (if k <=? p then v else 0) + wsum p t end.
+Fixpoint wtotal (D : list (Z * Z)) : Z :=
+  match D with [] => 0 | (_, v) :: t => v + wtotal t end.
+
+Lemma wsum_dict_add p k v D : wsum p (dict_add k 0 v D) = wsum p D + (if k <=? p then v else 0).
+Proof.
+  induction D as [|[k' x] t IH]; cbn [dict_add wsum].
+  - destruct (k <=? p); lia.
+  - destruct (k' =? k) eqn:E.
+    + cbn [wsum]. assert (k' = k) by lia. subst k'. destruct (k <=? p); lia.
+    + cbn [wsum]. rewrite IH. lia.
+Qed.
+
+Lemma wtotal_dict_add k v D : wtotal (dict_add k 0 v D) = wtotal D + v.
+Proof.
+  induction D as [|[k' x] t IH]; cbn [dict_add wtotal]; [lia|].
+  destruct (k' =? k) eqn:E; cbn [wtotal]; [lia|]. rewrite IH. lia.
+Qed.
+
+Lemma wsum_insert p a L : wsum p (insert_pair a L) = wsum p (a :: L).
+Proof.
+  destruct a as [k v]. induction L as [|[k' v'] t IH]; [reflexivity|]. cbn [insert_pair].
+  destruct ((fst (k, v) <? fst (k', v')) || ((fst (k, v) =? fst (k', v')) && (snd (k, v) <=? snd (k', v')))) eqn:E; [reflexivity|].
+  cbn [wsum] in *. rewrite IH. lia.
+Qed.
+
+Lemma wtotal_insert a L : wtotal (insert_pair a L) = wtotal (a :: L).
+Proof.
+  destruct a as [k v]. induction L as [|[k' v'] t IH]; [reflexivity|]. cbn [insert_pair].
+  destruct ((fst (k, v) <? fst (k', v')) || ((fst (k, v) =? fst (k', v')) && (snd (k, v) <=? snd (k', v')))) eqn:E; [reflexivity|].
+  cbn [wtotal] in *. rewrite IH. lia.
+Qed.
+
+Lemma wsum_sort p D : wsum p (sort_pairs D) = wsum p D.
+Proof.
+  unfold sort_pairs. induction D as [|[k v] t IH]; [reflexivity|]. cbn [fold_right].
+  rewrite wsum_insert. cbn [wsum]. now rewrite IH.
+Qed.
+
+Lemma wtotal_sort D : wtotal (sort_pairs D) = wtotal D.
+Proof.
+  unfold sort_pairs. induction D as [|[k v] t IH]; [reflexivity|]. cbn [fold_right].
+  rewrite wtotal_insert. cbn [wtotal]. now rewrite IH.
+Qed.
+
+Fixpoint cnt (p : Z) (l : list fspan) : Z :=
+  match l with
+  | [] => 0
+  | FS s e _ :: t => (if s <=? p then 1 else 0) - (if e <=? p then 1 else 0) + cnt p t
+  | FL _ :: t => cnt p t
+  end.
+
+Lemma wsum_cov_delta p l : forall D0, wsum p (cov_delta l D0) = wsum p D0 + cnt p l.
+Proof.
+  induction l as [|[s e r|n] t IH]; intros D0; cbn [cov_delta cnt]; [lia| |apply IH].
+  rewrite IH, !wsum_dict_add. destruct (s <=? p), (e <=? p); lia.
+Qed.
+
+Lemma wtotal_cov_delta l : forall D0, wtotal (cov_delta l D0) = wtotal D0.
+Proof.
+  induction l as [|[s e r|n] t IH]; intros D0; cbn [cov_delta]; [reflexivity| |apply IH].
+  rewrite IH, !wtotal_dict_add. lia.
+Qed.
+
+Definition covp (l : list fspan) (p : Z) : Prop := exists s e r, In (FS s e r) l /\ s <= p < e.
+
+Lemma cnt_spec plen p l : forallb (span_in plen) l = true -> 0 <= cnt p l /\ (0 < cnt p l <-> covp l p).
+Proof.
+  induction l as [|[s e r|n] t IH]; cbn [forallb cnt]; intros H.
+  - split; [lia|]. split; [lia|]. intros (s & e & r & [] & _).
+  - apply andb_prop in H. destruct H as (Hx & Ht). cbn [span_in] in Hx.
+    destruct (IH Ht) as (IH0 & IH1). assert (Hse : s <= e) by lia.
+    destruct (s <=? p) eqn:E1; destruct (e <=? p) eqn:E2; (split; [lia|]).
+    + split.
+      * intros Hc. assert (Hc' : 0 < cnt p t) by lia. apply IH1 in Hc'.
+        destruct Hc' as (s' & e' & r' & Hin & Hp). exists s', e', r'. split; [now right|exact Hp].
+      * intros (s' & e' & r' & [Heq|Hin] & Hp).
+        { injection Heq as -> -> ->. lia. }
+        { assert (0 < cnt p t) by (apply IH1; exists s', e', r'; auto). lia. }
+    + split; [|intros _; lia]. intros _. exists s, e, r. split; [now left|lia].
+    + lia.
+    + split.
+      * intros Hc. assert (Hc' : 0 < cnt p t) by lia. apply IH1 in Hc'.
+        destruct Hc' as (s' & e' & r' & Hin & Hp). exists s', e', r'. split; [now right|exact Hp].
+      * intros (s' & e' & r' & [Heq|Hin] & Hp).
+        { injection Heq as -> -> ->. lia. }
+        { assert (0 < cnt p t) by (apply IH1; exists s', e', r'; auto). lia. }
+  - apply andb_prop in H. destruct H as (Hx & Ht). destruct (IH Ht) as (IH0 & IH1). split; [exact IH0|].
+    split.
+    + intros Hc. apply IH1 in Hc. destruct Hc as (s' & e' & r' & Hin & Hp). exists s', e', r'. split; [now right|exact Hp].
+    + intros (s' & e' & r' & [Heq|Hin] & Hp); [discriminate|]. apply IH1. exists s', e', r'. auto.
+Qed.
+
+(** * 2. keys, sortedness *)
+
+Lemma dict_add_keys k pos d v D : In k (map fst (dict_add pos d v D)) <-> k = pos \/ In k (map fst D).
+Proof.
+  induction D as [|[k' x] t IH]; cbn [dict_add map fst In].
+  - intuition congruence.
+  - destruct (k' =? pos) eqn:E; cbn [map fst In].
+    + assert (k' = pos) by lia. subst k'. intuition congruence.
+    + rewrite IH. intuition congruence.
+Qed.
+
+Lemma dict_add_nodup pos d v D : NoDup (map fst D) -> NoDup (map fst (dict_add pos d v D)).
+Proof.
+  induction D as [|[k' x] t IH]; cbn [dict_add map fst]; intros H.
+  - constructor; [intros []|constructor].
+  - inversion H as [|a b Hn Ht]; subst. destruct (k' =? pos) eqn:E; cbn [map fst].
+    + constructor; assumption.
+    + constructor; [|now apply IH]. rewrite dict_add_keys. intros [Heq|Hin]; [lia|contradiction].
+Qed.
+
+Lemma cov_delta_nodup l : forall D0, NoDup (map fst D0) -> NoDup (map fst (cov_delta l D0)).
+Proof.
+  induction l as [|[s e r|n] t IH]; intros D0 H; cbn [cov_delta]; [exact H| |now apply IH].
+  apply IH. now apply dict_add_nodup, dict_add_nodup.
+Qed.
+
+Lemma cov_delta_keys k l : forall D0, In k (map fst (cov_delta l D0)) ->
+  In k (map fst D0) \/ exists s e r, In (FS s e r) l /\ (k = s \/ k = e).
+Proof.
+  induction l as [|[s e r|n] t IH]; intros D0 H; cbn [cov_delta] in H.
+  - now left.
+  - apply IH in H. destruct H as [H|(s' & e' & r' & Hin & Hk)].
+    + rewrite !dict_add_keys in H. destruct H as [->|[->|H]].
+      * right. exists s, e, r. split; [now left|now right].
+      * right. exists s, e, r. split; [now left|now left].
+      * now left.
+    + right. exists s', e', r'. split; [now right|exact Hk].
+  - apply IH in H. destruct H as [H|(s' & e' & r' & Hin & Hk)]; [now left|].
+    right. exists s', e', r'. split; [now right|exact Hk].
+Qed.
+
+Lemma insert_pair_in x a L : In x (insert_pair a L) <-> x = a \/ In x L.
+Proof.
+  induction L as [|y t IH]; cbn [insert_pair In].
+  - intuition congruence.
+  - destruct ((fst a <? fst y) || ((fst a =? fst y) && (snd a <=? snd y))); cbn [In].
+    + intuition congruence.
+    + rewrite IH. intuition congruence.
+Qed.
+
+Lemma sort_pairs_in x D : In x (sort_pairs D) <-> In x D.
+Proof.
+  unfold sort_pairs. induction D as [|a t IH]; cbn [fold_right In]; [tauto|].
+  rewrite insert_pair_in, IH. intuition congruence.
+Qed.
+
+Lemma fsorted_insert a L : forall lo, fsorted lo L -> lo < fst a -> ~ In (fst a) (map fst L) ->
+  fsorted lo (insert_pair a L).
+Proof.
+  induction L as [|y t IH]; intros lo Hs Hlo Hn.
+  - cbn [insert_pair fsorted]. split; [exact Hlo|exact I].
+  - cbn [fsorted] in Hs. destruct Hs as (Hy & Ht). cbn [map In] in Hn. cbn [insert_pair].
+    assert (Hne : fst y <> fst a) by (intros E; apply Hn; now left).
+    destruct ((fst a <? fst y) || ((fst a =? fst y) && (snd a <=? snd y))) eqn:E.
+    + cbn [fsorted]. split; [exact Hlo|]. split; [lia|exact Ht].
+    + cbn [fsorted]. split; [exact Hy|]. apply IH; [exact Ht|lia|]. intros Hin. apply Hn. now right.
+Qed.
+
+Lemma sort_pairs_fsorted lo D : NoDup (map fst D) -> (forall x, In x D -> lo < fst x) ->
+  fsorted lo (sort_pairs D).
+Proof.
+  unfold sort_pairs. induction D as [|a t IH]; cbn [map fold_right]; intros Hn Hlo; [exact I|].
+  inversion Hn as [|a' b' Hna Hnt]; subst. apply fsorted_insert.
+  - apply IH; [exact Hnt|]. intros x Hx. apply Hlo. now right.
+  - apply Hlo. now left.
+  - intros Hin. apply Hna. apply in_map_iff in Hin. destruct Hin as (x & Hfx & Hx).
+    apply (sort_pairs_in x t) in Hx. apply in_map_iff. exists x. auto.
+Qed.
+
+Lemma fsorted_wsum0 t : forall x p, fsorted x t -> p <= x -> wsum p t = 0.
+Proof.
+  induction t as [|[k v] t IH]; intros x p Hs Hp; [reflexivity|].
+  cbn [fsorted fst] in Hs. destruct Hs as (Hk & Ht). cbn [wsum].
+  destruct (k <=? p) eqn:E; [lia|]. rewrite (IH k p Ht) by lia. lia.
+Qed.
+
+(** * 3. the sweep *)
+
+Definition flat (L : list (Z * Z)) : list Z := flat_map (fun x => zrange (fst x) (snd x)) L.
+
+Fixpoint sep (prev : Z) (L : list (Z * Z)) : Prop :=
+  match L with [] => True | (a, b) :: t => prev < a /\ a < b /\ sep b t end.
+
+Lemma sep_weaken L lo lo' : sep lo L -> lo' <= lo -> sep lo' L.
+Proof. destruct L as [|[a b] t]; cbn [sep]; [auto|]. intros (H1 & H2 & H3) Hl. split; [lia|]. split; assumption. Qed.
+
+Lemma sep_in L : forall lo a b, sep lo L -> In (a, b) L -> lo < a /\ a < b.
+Proof.
+  induction L as [|[a' b'] t IH]; intros lo a b Hs Hin; [contradiction|].
+  cbn [sep] in Hs. destruct Hs as (H1 & H2 & H3). destruct Hin as [Heq|Hin].
+  - injection Heq as -> ->. lia.
+  - specialize (IH _ _ _ H3 Hin). lia.
+Qed.
+
+Lemma flat_in p L : In p (flat L) <-> exists a b, In (a, b) L /\ a <= p < b.
+Proof.
+  unfold flat. rewrite in_flat_map. split.
+  - intros ([a b] & Hin & Hp). cbn [fst snd] in Hp. apply zrange_In in Hp. exists a, b. auto.
+  - intros (a & b & Hin & Hp). exists (a, b). split; [exact Hin|]. cbn [fst snd]. now apply zrange_In.
+Qed.
+
+Lemma sep_flat L lo p : sep lo L -> In p (flat L) -> lo < p.
+Proof.
+  intros Hs Hin. apply flat_in in Hin. destruct Hin as (a & b & Hin & Hp).
+  pose proof (sep_in L lo a b Hs Hin). lia.
+Qed.
+
+Lemma flat_cons a b t p : In p (flat ((a, b) :: t)) <-> a <= p < b \/ In p (flat t).
+Proof. unfold flat. cbn [flat_map fst snd]. rewrite in_app_iff, zrange_In. tauto. Qed.
+
+Lemma cov_sweep_cons x dx t y ly start :
+  cov_sweep ((x, dx) :: t) y ly start =
+  if negb (y + dx =? 0) && (ly =? 0) then
+    match start with Some _ => Err E_Other | None => cov_sweep t (y + dx) (y + dx) (Some x) end
+  else if negb (ly =? 0) && (y + dx =? 0) then
+    bind (cov_sweep t (y + dx) (y + dx) None) (fun tl =>
+      match start with Some s => Ok ((s, x) :: tl) | None => Err E_Type end)
+  else cov_sweep t (y + dx) (y + dx) start.
+Proof. reflexivity. Qed.
+
+Lemma sweep_spec items : forall lo y start,
+  fsorted lo items ->
+  (forall p, 0 <= y + wsum p items) ->
+  y + wtotal items = 0 ->
+  ((y = 0 /\ start = None) \/ (0 < y /\ exists a, start = Some a /\ a <= lo)) ->
+  exists locs, cov_sweep items y y start = Ok locs /\
+    (forall p, lo <= p -> (In p (flat locs) <-> 0 < y + wsum p items)) /\
+    match start with
+    | None => sep lo locs
+    | Some a => exists b rest, locs = (a, b) :: rest /\ lo < b /\ sep b rest
+    end.
+Proof.
+  induction items as [|[x dx] t IH]; intros lo y start Hs Hnn Htot Hst.
+  - cbn [wtotal] in Htot. assert (y = 0) by lia. subst y. cbn [cov_sweep Z.eqb].
+    exists []. split; [reflexivity|]. split.
+    + intros p _. cbn [flat flat_map wsum In]. lia.
+    + destruct Hst as [(_ & ->)|(Hy & _)]; [exact I|lia].
+  - cbn [fsorted fst] in Hs. destruct Hs as (Hlx & Hst').
+    assert (W0 : forall p, p <= x -> wsum p t = 0) by (intros p Hp; now apply (fsorted_wsum0 t x p)).
+    assert (Hlow : forall p, p < x -> wsum p ((x, dx) :: t) = 0).
+    { intros p Hp. cbn [wsum]. destruct (x <=? p) eqn:E; [lia|]. rewrite W0 by lia. lia. }
+    assert (Hhigh : forall p, x <= p -> y + wsum p ((x, dx) :: t) = y + dx + wsum p t).
+    { intros p Hp. cbn [wsum]. destruct (x <=? p) eqn:E; lia. }
+    assert (Hy' : 0 <= y + dx).
+    { pose proof (Hnn x) as Hx. rewrite Hhigh, W0 in Hx by lia. lia. }
+    assert (Hnn' : forall p, 0 <= y + dx + wsum p t).
+    { intros p. destruct (Z_lt_le_dec p x) as [Hp|Hp].
+      - rewrite W0 by lia. lia.
+      - rewrite <- Hhigh by lia. apply Hnn. }
+    assert (Htot' : y + dx + wtotal t = 0) by (cbn [wtotal] in Htot; lia).
+    rewrite cov_sweep_cons.
+    destruct (negb (y + dx =? 0) && (y =? 0)) eqn:C1.
+    + (* a block opens at x *)
+      assert (Hy0 : y = 0) by lia. assert (Hdx : 0 < y + dx) by lia.
+      destruct Hst as [(_ & ->)|(Hy & _)]; [|lia].
+      destruct (IH x (y + dx) (Some x) Hst' Hnn' Htot') as (locs & Hrun & Hmem & b & rest & Hlocs & Hxb & Hsep).
+      { right. split; [exact Hdx|]. exists x. split; [reflexivity|lia]. }
+      exists locs. split; [exact Hrun|]. split.
+      * intros p Hp. destruct (Z_lt_le_dec p x) as [Hpx|Hpx].
+        { rewrite Hlow by lia. split; [|lia]. intros Hin. rewrite Hlocs in Hin. apply flat_cons in Hin.
+          destruct Hin as [Hin|Hin]; [lia|]. pose proof (sep_flat rest b p Hsep Hin). lia. }
+        { rewrite Hhigh by lia. apply Hmem. lia. }
+      * rewrite Hlocs. cbn [sep]. split; [lia|]. split; [lia|exact Hsep].
+    + destruct (negb (y =? 0) && (y + dx =? 0)) eqn:C2.
+      * (* a block closes at x *)
+        assert (Hy0 : y <> 0) by lia. assert (Hdx : y + dx = 0) by lia.
+        destruct Hst as [(Hy & _)|(Hy & a & -> & Ha)]; [lia|].
+        destruct (IH x (y + dx) None Hst' Hnn' Htot') as (tl & Hrun & Hmem & Hsep).
+        { left. split; [exact Hdx|reflexivity]. }
+        rewrite Hrun. cbn [bind]. exists ((a, x) :: tl). split; [reflexivity|]. split.
+        { intros p Hp. rewrite flat_cons. destruct (Z_lt_le_dec p x) as [Hpx|Hpx].
+          - rewrite Hlow by lia. split; [lia|]. intros _. left. lia.
+          - rewrite Hhigh by lia. rewrite <- Hmem by lia. split; [|tauto]. intros [Hin|Hin]; [lia|exact Hin]. }
+        { exists x, tl. split; [reflexivity|]. split; [lia|exact Hsep]. }
+      * destruct Hst as [(Hy & ->)|(Hy & a & -> & Ha)].
+        { (* outside a block *)
+          assert (Hdx : y + dx = 0) by lia.
+          destruct (IH x (y + dx) None Hst' Hnn' Htot') as (locs & Hrun & Hmem & Hsep).
+          { left. split; [exact Hdx|reflexivity]. }
+          exists locs. split; [exact Hrun|]. split.
+          - intros p Hp. destruct (Z_lt_le_dec p x) as [Hpx|Hpx].
+            + rewrite Hlow by lia. split; [|lia]. intros Hin. pose proof (sep_flat locs x p Hsep Hin). lia.
+            + rewrite Hhigh by lia. apply Hmem. lia.
+          - apply (sep_weaken locs x lo Hsep). lia. }
+        { (* inside a block *)
+          assert (Hdx : 0 < y + dx) by lia.
+          destruct (IH x (y + dx) (Some a) Hst' Hnn' Htot') as (locs & Hrun & Hmem & b & rest & Hlocs & Hxb & Hsep).
+          { right. split; [exact Hdx|]. exists a. split; [reflexivity|lia]. }
+          exists locs. split; [exact Hrun|]. split.
+          - intros p Hp. destruct (Z_lt_le_dec p x) as [Hpx|Hpx].
+            + rewrite Hlow by lia. split; [lia|]. intros _. rewrite Hlocs. apply flat_cons. left. lia.
+            + rewrite Hhigh by lia. apply Hmem. lia.
+          - exists b, rest. split; [exact Hlocs|]. split; [lia|exact Hsep]. }
+Qed.
+
+(** * 4. strictly increasing lists, positions *)
+
+Fixpoint ssorted (lo : Z) (l : list Z) : Prop :=
+  match l with [] => True | x :: t => lo < x /\ ssorted x t end.
+
+Lemma ssorted_weaken l lo lo' : ssorted lo l -> lo' <= lo -> ssorted lo' l.
+Proof. destruct l as [|x t]; cbn [ssorted]; [auto|]. intros (H1 & H2) Hl. split; [lia|exact H2]. Qed.
+
+Lemma ssorted_in l : forall lo x, ssorted lo l -> In x l -> lo < x.
+Proof.
+  induction l as [|y t IH]; intros lo x Hs Hin; [contradiction|]. cbn [ssorted] in Hs.
+  destruct Hs as (H1 & H2). destruct Hin as [->|Hin]; [exact H1|]. specialize (IH _ _ H2 Hin). lia.
+Qed.
+
+Lemma strict_sorted_ext l1 : forall l2 lo, ssorted lo l1 -> ssorted lo l2 ->
+  (forall x, In x l1 <-> In x l2) -> l1 = l2.
+Proof.
+  induction l1 as [|x t1 IH]; intros [|y t2] lo H1 H2 Hm.
+  - reflexivity.
+  - exfalso. apply (Hm y). now left.
+  - exfalso. apply (Hm x). now left.
+  - cbn [ssorted] in H1, H2. destruct H1 as (Hx & Ht1). destruct H2 as (Hy & Ht2).
+    assert (Exy : x = y).
+    { assert (A : In x (y :: t2)) by (apply Hm; now left).
+      assert (B : In y (x :: t1)) by (apply Hm; now left).
+      destruct A as [A|A]; [auto|]. destruct B as [B|B]; [auto|].
+      pose proof (ssorted_in t2 y x Ht2 A). pose proof (ssorted_in t1 x y Ht1 B). lia. }
+    subst y. f_equal. apply (IH t2 x Ht1 Ht2). intros z. split; intros Hz.
+    + assert (A : In z (x :: t2)) by (apply Hm; now right). destruct A as [A|A]; [|exact A].
+      pose proof (ssorted_in t1 x z Ht1 Hz). lia.
+    + assert (A : In z (x :: t1)) by (apply Hm; now right). destruct A as [A|A]; [|exact A].
+      pose proof (ssorted_in t2 x z Ht2 Hz). lia.
+Qed.
+
+Lemma ssorted_zrange_app n : forall a lo rest, lo < a -> ssorted (a + Z.of_nat n - 1) rest ->
+  ssorted lo (zrange_aux a n ++ rest).
+Proof.
+  induction n as [|n IH]; intros a lo rest Hlo Hr.
+  - cbn [zrange_aux app]. apply (ssorted_weaken rest _ lo Hr). lia.
+  - cbn [zrange_aux app ssorted]. split; [exact Hlo|]. apply IH; [lia|].
+    replace (a + 1 + Z.of_nat n - 1) with (a + Z.of_nat (S n) - 1) by lia. exact Hr.
+Qed.
+
+Lemma sep_ssorted L : forall lo, sep lo L -> ssorted lo (flat L).
+Proof.
+  induction L as [|[a b] t IH]; intros lo Hs; [exact I|]. cbn [sep] in Hs. destruct Hs as (H1 & H2 & H3).
+  unfold flat. cbn [flat_map fst snd]. unfold zrange. apply ssorted_zrange_app; [exact H1|].
+  apply (ssorted_weaken _ b); [apply IH; exact H3|lia].
+Qed.
+
+Lemma ins_in x y l : In x (ins y l) <-> x = y \/ In x l.
+Proof.
+  induction l as [|z t IH]; cbn [ins In]; [intuition congruence|].
+  destruct (y <? z) eqn:E1; [cbn [In]; intuition congruence|].
+  destruct (y =? z) eqn:E2.
+  - assert (y = z) by lia. subst z. cbn [In]. intuition congruence.
+  - cbn [In]. rewrite IH. intuition congruence.
+Qed.
+
+Lemma ssorted_ins x l : forall lo, ssorted lo l -> lo < x -> ssorted lo (ins x l).
+Proof.
+  induction l as [|z t IH]; intros lo Hs Hlo.
+  - cbn [ins ssorted]. auto.
+  - cbn [ssorted] in Hs. destruct Hs as (Hz & Ht). cbn [ins].
+    destruct (x <? z) eqn:E1.
+    + cbn [ssorted]. split; [exact Hlo|]. split; [lia|exact Ht].
+    + destruct (x =? z) eqn:E2.
+      * cbn [ssorted]. split; assumption.
+      * cbn [ssorted]. split; [exact Hz|]. apply IH; [exact Ht|lia].
+Qed.
+
+Lemma pos_of_in p d : In p (pos_of d) <-> In (Some p) d.
+Proof.
+  induction d as [|[q|] t IH]; cbn [pos_of fold_right In]; [tauto| |].
+  - fold (pos_of t). rewrite ins_in, IH. intuition congruence.
+  - fold (pos_of t). rewrite IH. intuition congruence.
+Qed.
+
+Lemma pos_of_ssorted lo d : (forall p, In (Some p) d -> lo < p) -> ssorted lo (pos_of d).
+Proof.
+  induction d as [|[q|] t IH]; intros H; cbn [pos_of fold_right]; [exact I| |].
+  - fold (pos_of t). apply ssorted_ins; [|apply H; now left]. apply IH. intros p Hp. apply H. now right.
+  - fold (pos_of t). apply IH. intros p Hp. apply H. now right.
+Qed.
+
+Lemma den_span_in p sp : In (Some p) (den_span sp) <-> exists s e r, sp = FS s e r /\ s <= p < e.
+Proof.
+  destruct sp as [s e r|n]; cbn [den_span].
+  - assert (A : In (Some p) (map Some (zrange s e)) <-> s <= p < e).
+    { rewrite in_map_iff. split.
+      - intros (q & Hq & Hin). injection Hq as ->. now apply zrange_In.
+      - intros Hp. exists p. split; [reflexivity|]. now apply zrange_In. }
+    split.
+    + intros Hin. exists s, e, r. split; [reflexivity|]. apply A. destruct r; [now apply in_rev|exact Hin].
+    + intros (s' & e' & r' & Heq & Hp). injection Heq as <- <- <-. apply A in Hp.
+      destruct r; [now apply in_rev in Hp|exact Hp].
+  - split.
+    + intros Hin. apply repeat_spec in Hin. discriminate.
+    + intros (s & e & r & Heq & _). discriminate.
+Qed.
+
+Lemma den_in p fm : In (Some p) (den fm) <-> covp (fspans fm) p.
+Proof.
+  unfold den, covp. rewrite in_flat_map. split.
+  - intros (sp & Hin & Hp). apply den_span_in in Hp. destruct Hp as (s & e & r & -> & Hp). exists s, e, r. auto.
+  - intros (s & e & r & Hin & Hp). exists (FS s e r). split; [exact Hin|]. apply den_span_in. exists s, e, r. auto.
+Qed.
+
+Lemma sep_separated L : forall lo, sep lo L -> separated lo (map (fun x => FS (fst x) (snd x) false) L) = true.
+Proof.
+  induction L as [|[a b] t IH]; intros lo Hs; [reflexivity|]. cbn [sep] in Hs. destruct Hs as (H1 & H2 & H3).
+  cbn [map fst snd separated]. rewrite (IH b H3). lia.
+Qed.
+
+(** * 5. [covered] *)
+
+Theorem fm_covered_spec fm : in_parent fm = true ->
+  exists c, fm_covered fm = Ok c /\ den c = map Some (positions fm) /\
+            separated (-1) (fspans c) = true /\ fplen c = fplen fm /\ in_parent c = true.
+Proof.
+  intros Hin. unfold in_parent in Hin. set (l := fspans fm) in *. set (plen := fplen fm) in *.
+  assert (Hall : forall s e r, In (FS s e r) l -> 0 <= s /\ s <= e /\ e <= plen).
+  { intros s e r Hi. rewrite forallb_forall in Hin. specialize (Hin _ Hi). cbn [span_in] in Hin. lia. }
+  set (D := cov_delta l []). set (items := sort_pairs D).
+  assert (Hnd : NoDup (map fst D)) by (apply cov_delta_nodup; constructor).
+  assert (Hkeys : forall x, In x D -> -1 < fst x).
+  { intros x Hx. assert (Hk : In (fst x) (map fst D)) by (apply in_map; exact Hx).
+    apply cov_delta_keys in Hk. destruct Hk as [[]|(s & e & r & Hi & Hk)].
+    pose proof (Hall s e r Hi). lia. }
+  assert (Hsorted : fsorted (-1) items) by (apply sort_pairs_fsorted; assumption).
+  assert (Hws : forall p, wsum p items = cnt p l).
+  { intros p. unfold items, D. rewrite wsum_sort, wsum_cov_delta. cbn [wsum]. lia. }
+  assert (Hwt : wtotal items = 0).
+  { unfold items, D. rewrite wtotal_sort, wtotal_cov_delta. reflexivity. }
+  destruct (sweep_spec items (-1) 0 None Hsorted) as (locs & Hrun & Hmem & Hsep).
+  { intros p. rewrite Hws. pose proof (cnt_spec plen p l Hin). lia. }
+  { lia. }
+  { left. split; reflexivity. }
+  assert (Hcov : forall p, In p (flat locs) <-> covp l p).
+  { intros p. destruct (Z_lt_le_dec p (-1)) as [Hp|Hp].
+    - split.
+      + intros Hi. pose proof (sep_flat locs (-1) p Hsep Hi). lia.
+      + intros (s & e & r & Hi & Hpp). pose proof (Hall s e r Hi). lia.
+    - rewrite (Hmem p Hp), Hws. cbn [Z.add]. apply (cnt_spec plen p l Hin). }
+  assert (Hb : forall x, In x locs -> 0 <= fst x <= snd x /\ snd x <= plen).
+  { intros [a b] Hx. cbn [fst snd]. pose proof (sep_in locs (-1) a b Hsep Hx) as Hab.
+    assert (Hc : covp l (b - 1)).
+    { apply Hcov. apply flat_in. exists a, b. split; [exact Hx|lia]. }
+    destruct Hc as (s & e & r & Hi & Hp). pose proof (Hall s e r Hi). lia. }
+  assert (Hsfl : spans_from_locations locs plen = Ok (map (fun x => FS (fst x) (snd x) false) locs)).
+  { unfold spans_from_locations. destruct locs as [|[s0 e0] rest] eqn:El; [reflexivity|].
+    destruct (last_end_in ((s0, e0) :: rest)) as (s & Hs); [discriminate|].
+    assert (Hh : s0 < last_end ((s0, e0) :: rest)).
+    { cbn [sep] in Hsep. destruct Hsep as (H1 & H2 & H3). destruct Hs as [Heq|Hs].
+      - injection Heq as _ <-. exact H2.
+      - pose proof (sep_in rest e0 _ _ H3 Hs). lia. }
+    destruct (s0 >? last_end ((s0, e0) :: rest)) eqn:E; [lia|]. now apply sfl_loop_ok. }
+  unfold fm_covered. fold l. fold D. fold items. rewrite Hrun. cbn [bind]. unfold from_locations.
+  fold plen. rewrite Hsfl. cbn [bind]. eexists. split; [reflexivity|]. cbn [fspans fplen].
+  split; [|split; [|split]].
+  - unfold den at 1. cbn [fspans]. rewrite den_forward_locs. f_equal. fold (flat locs).
+    apply (strict_sorted_ext (flat locs) (positions fm) (-1)).
+    + now apply sep_ssorted.
+    + change (positions fm) with (pos_of (den fm)). apply pos_of_ssorted. intros p Hp.
+      apply den_in in Hp. destruct Hp as (s & e & r & Hi & Hpp). pose proof (Hall s e r Hi). lia.
+    + intros p. change (positions fm) with (pos_of (den fm)). rewrite pos_of_in, den_in. apply Hcov.
+  - now apply sep_separated.
+  - reflexivity.
+  - unfold in_parent. cbn [fspans fplen]. apply forallb_forall. intros sp Hsp.
+    apply in_map_iff in Hsp. destruct Hsp as (x & <- & Hx). specialize (Hb x Hx). cbn [span_in]. lia.
+Qed.
+
+Example fm_covered_example :
+  let fm := mk_fmap [FS 2 5 true; FS 1 1 false; FL 2; FS 4 7 false; FS 9 10 false] 10 in
+  in_parent fm = true /\
+  exists c, fm_covered fm = Ok c /\ den c = [Some 2; Some 3; Some 4; Some 5; Some 6; Some 9] /\
+            fspans c = [FS 2 7 false; FS 9 10 false].
+Proof. cbn zeta. split; [reflexivity|]. eexists. split; [|split]; vm_compute; reflexivity. Qed.
